@@ -74,9 +74,12 @@ def _cc(chibicc):
 def _bisect(cases, ok):
     """minimal set of single cases c with not ok([c]) explaining not ok(cases) (cases are independent functions)"""
     bad, stack, n = [], [list(cases)], 0
-    while stack and n < 400:
+    while stack:
         cs = stack.pop()
         n += 1
+        if n > 48 and len(cs) > 1:          # dense failures: bisection does not pay, test the rest one by one
+            stack.extend([c] for c in reversed(cs))
+            continue
         r = ok(cs)
         if r is True:
             continue
